@@ -17,8 +17,8 @@ META = {
              "before the positive claims."),
     "note": ("Partial. Trusted: Coq kernel; the correspondence sample (a test, not a proof); the harness recomputes the hull's f32 sort "
              "keys and the f32 segment distances with the same public Vec2/PointF/Line methods the implementation uses (replayed into "
-             "the model); f32 cross products are exact on the integer coordinates used (|c| <= 8 random, assumption stated for "
-             "|c| <= 2^11). NaN/infinite coordinates, epsilon = NaN and large/non-integer coordinates are outside what is checked. "
+             "the model); f32 cross products are exact on the coordinates used: integers with differences |d| <= 16, scaled by "
+             "2^k (k from -18 to 14) and translated by dyadic offsets, so tiny, large and far-from-origin point sets are covered exactly. NaN/infinite coordinates, epsilon = NaN and coordinates whose differences are not small dyadics are outside what is checked. "
              "Defects repaired first: F55 (simplify_polygon panics on empty input), F56 (convex_hull loses the furthest of several "
              "collinear points; min_area_rect inherits it)."),
     "technique": "Coq proof (induction over fuel with a shape invariant; stack invariant of the scan) + model/implementation correspondence with exact-arithmetic oracle",
@@ -50,12 +50,17 @@ def main(ctx):
     ctx.rule = ("integer-coordinate point sets: all ordered triples (quick) / quadruples (thorough) of points of the 3x3 lattice for "
                 "the hull; seeded random sets of 0..12 points with coordinates in -8..8 (uniform, coarse lattices, collinear runs "
                 "through a base point, duplicates, rays from the bottom-left point), used for convex_hull, simplify_polygon / "
-                "simplify_polyline with epsilon = k/4 (k in 0..40) and min_area_rect; corpus of the F55/F56 inputs first. "
+                "simplify_polyline with epsilon = k/4 (k in 0..40) and min_area_rect; SCALED families: half of the random sets and half of "
+                "the lattice sets are multiplied by 2^k, k in {-18,-14,-10,-4,8,14} (extents from 4e-6 to 1e5) and translated by a dyadic "
+                "offset (hull: up to 2^20 units; simplify/rect: up to 64 units), epsilon scaled alike -- all exactly representable, the "
+                "exact oracle runs on the integer pre-images; corpus of the F55/F56/C35-B inputs first. "
                 "non-trivial = non-empty point set")
     ctx.trusted += ["harness recomputes the f32 sort keys of convex_hull and the f32 Line::distance values with the implementation's own "
                     "public methods; they are replayed into the model as order-preserving integers",
                     "min_area_rect has no model: oracle (exact rational containment with tolerance 1/512) only"]
-    ctx.assumptions += ["coordinates are integers with |c| <= 8: f32 differences, products and cross products are exact",
+    ctx.assumptions += ["coordinates are (integer + integer offset) * 2^k with integer differences |d| <= 16: f32 differences, products and "
+                        "cross products are exact at every scale used; the oracle is evaluated on the integer pre-images (orientation and "
+                        "distance ratios are invariant under scaling by 2^k and translation)",
                         "no NaN/infinite coordinates, epsilon >= 0 finite (epsilon < 0 is a documented assert)"]
     ctx.audit(GROUP)
     failed = ctx.prove(GROUP, "Props_C35", THEOREMS, timeout=3000)
